@@ -85,6 +85,42 @@ EXAMPLE = (
 )
 
 
+EXAMPLE_PROJECT = {
+    "lib.py": ("x = 1\ndef f(p, q=2):\n    return p + q\nclass K:\n    a = 1\n    def __init__(self, v):\n"
+               "        self.v = v\n"),
+    "mod_under_test.py": ("import lib\nfrom lib import f as g, K\nx = 5\ndef h(p):\n    return g(p=p, q=lib.x) + x\n"
+                          "print(lib.f(1), K(v=2).a, K.a, lib.K)\n"),
+}
+
+
+def project_witness_def(name, files):
+    obs = {p: L.observe(src, with_rope=False, resolvable=("lib",)) for p, src in files.items()}
+    lib_prog, main_prog, intern = L.project_programs(obs)
+    import builtins as _b
+    names = sorted({t.name for o in obs.values() for t in o.tokens} | {"len", "__init__", "__call__", "staticmethod",
+                                                                        "classmethod", "property", "lib"})
+    gi = lambda xs: "[" + "; ".join("%d%%N" % intern(x) for x in xs) + "]"
+    nl = lambda xs: "[" + "; ".join("%d%%N" % i for i in sorted(xs)) + "]"
+    main = obs[[p for p in obs if p != L.LIBNAME][0]]
+    lib = obs[L.LIBNAME]
+    out = ["(* lib.py:\n   %s\n   mod_under_test.py:\n   %s *)" % (
+        files["lib.py"].replace("\n", "\n   "), files["mod_under_test.py"].replace("\n", "\n   "))]
+    out.append("Definition w2_lib_%s : program := %s." % (name, lib_prog))
+    out.append("Definition w2_main_%s : program := %s." % (name, main_prog))
+    out.append("Definition w2_bi_%s : list ident := %s." % (name, gi([x for x in names if x in set(dir(_b))])))
+    out.append("Definition w2_ids_%s : list ident := %s." % (name, gi(names)))
+    out.append("Definition w2_init_%s : ident := %d%%N." % (name, intern("__init__")))
+    out.append("Definition w2_call_%s : ident := %d%%N." % (name, intern("__call__")))
+    out.append("Definition w2_odd_%s : list ident := %s." % (name, gi(["staticmethod", "classmethod"])))
+    out.append("Definition w2_prop_%s : ident := %d%%N." % (name, intern("property")))
+    out.append("Definition w2_libname_%s : ident := %d%%N." % (name, intern("lib")))
+    out.append("Definition w2_kwl_lib_%s : list N := %s." % (name, nl(lib.kwlike)))
+    out.append("Definition w2_kwl_main_%s : list N := %s." % (name, nl(main.kwlike)))
+    out.append("(* lib tokens: %s *)" % ", ".join("%s#%d" % (t.name, t.id) for t in lib.tokens))
+    out.append("(* main tokens: %s *)" % ", ".join("%s#%d" % (t.name, t.id) for t in main.tokens))
+    return "\n".join(out) + "\n"
+
+
 def witness_def(name, src):
     o = L.observe(src, with_rope=False)
     tr = o.tr
@@ -115,6 +151,7 @@ def write_witnesses(path=None):
     for fid, (src, _title) in WITNESSES.items():
         parts.append(witness_def(fid.replace("-", "_"), src))
     parts.append(witness_def("example", EXAMPLE))
+    parts.append(project_witness_def("example", EXAMPLE_PROJECT))
     with open(path, "w") as f:
         f.write("\n".join(parts))
 
@@ -142,7 +179,21 @@ PROJECT = {
 }
 
 
+SEQUENCE = {
+    "stale-attribute-after-edit": (
+        {"kind": "sequence", "focus": "stale-attribute-after-edit", "files": {'lib.py': 'x = 7\nb = 4\na = 0\ny = 1\nif y and y + [a]:\n    {y + a for y in x}\n    (x, b) = ((b, y), x)\nclass B:\n    n = 7\n    def __init__(self, x=5, y=a, *b):\n        # y = h(a=x)\n        import ext\n        self.x = a < y < (f\'{b:{y}} y\', \'(y\')\n        self.n = ext\n        return y\n    def m(self, x, y):\n        b = f\'{y:{y}} x\' * 5\n        self.y = [f"{f\'{a}\'} {x:>{a}.2f}"] and f"{f\'{a}\'} {b:>{a}.2f}" + b\nclass K(B):\n    def n(this, a):\n        if b + f\'{y:{x}} x\' * x:\n            import other\n        else:\n            B(3, y=(y, this), b=f\'{x} b\')\n        if 9 < a < other:\n            this.x = a\n            c = B(x=x, b=0)\n    n = 3\nx = [c + f\'{x!r:>{x}}\' for c in x]\n(b, b) = (K(x, y=0), a < b)\n', 'mod_under_test.py': 'from lib import *\ny = 1\nc = 2\nb = 1\ndef g():\n    return y\n    x = (y * b, c)\ndef h():\n    # a = h(a=x)\n    print(\'(a\')\n    print(y)\nclass B(object):\n    n = 9\n    def __init__(self, y, b=c):\n        global c\n        """B.x"""\n        try:\n            pass\n        except Exception as b:\n            b = self.n\n        b = y < (y, self)\n        for c in h():\n            \'y\'\n            b = self\n            print(c)\n    n = 5\n    y = 2\n@h\ndef f(y: h, c=3, *x):\n    global b\n    B()\n    return 7\n    "def f(c): return x"\n    (x, y) = (c, \'a\')\ntry:\n    (x, b) = (c, (f\'{B(7, y)} y\', c))\nexcept Exception as x:\n    a = g()\nfor y in x < b:\n    (y, c) = (2 + [7], a * h())\n    if f\'{g()} b\':\n        b = x\n        (b, b) = ([\'(x\'] and c < c, 8)\n    else:\n        for y in b:\n            print(g())\ndef run_new(path):\n    return fresh\nprint(fresh)\nprint(B)\n'}, "lib2": 'fresh = 7\nx = 7\nb = 4\na = 0\ny = 1\nif y and y + [a]:\n    {y + a for y in x}\n    (x, b) = ((b, y), x)\nclass B:\n    n = 7\n    def __init__(self, x=5, y=a, *b):\n        # y = h(a=x)\n        import ext\n        self.x = a < y < (f\'{b:{y}} y\', \'(y\')\n        self.n = ext\n        return y\n    def m(self, x, y):\n        b = f\'{y:{y}} x\' * 5\n        self.y = [f"{f\'{a}\'} {x:>{a}.2f}"] and f"{f\'{a}\'} {b:>{a}.2f}" + b\nclass K(B):\n    def n(this, a):\n        if b + f\'{y:{x}} x\' * x:\n            import other\n        else:\n            B(3, y=(y, this), b=f\'{x} b\')\n        if 9 < a < other:\n            this.x = a\n            c = B(x=x, b=0)\n    n = 3\nx = [c + f\'{x!r:>{x}}\' for c in x]\n(b, b) = (K(x, y=0), a < b)\n'},
+        "in a live project, after lib.py was rewritten through the rope API (a line added at the top), the occurrences of "
+        "instance attributes reached through self are wrong where a freshly opened project - and a project that only "
+        "answered the same queries on the final text - are right: self.x of class B is reported with this.x of its "
+        "subclass K, self.n with K's own n (generated input; the attributes of K no longer shadow the inherited ones; "
+        "call information recorded by rope's object inference before the edit is the suspected cause, not confirmed)"),
+}
+
+
 def write_findings():
+    for fid, (obj, title) in SEQUENCE.items():
+        with open(os.path.join(VERIF, "findings", "C02-%s.json" % fid), "w") as f:
+            json.dump(dict(obj, property="C02", title=title), f, indent=1)
     for fid, (obj, title) in PROJECT.items():
         with open(os.path.join(VERIF, "findings", "C02-%s.json" % fid), "w") as f:
             json.dump(dict(obj, property="C02", title=title), f, indent=1)
@@ -165,7 +216,7 @@ def write_findings():
 
 def write_findings_index():
     entries = []
-    for fid, (src, title) in list(WITNESSES.items()) + list(TEXTUAL.items()) + list(HISTORY.items()) + list(PROJECT.items()):
+    for fid, (src, title) in list(WITNESSES.items()) + list(TEXTUAL.items()) + list(HISTORY.items()) + list(PROJECT.items()) + list(SEQUENCE.items()):
         entries.append({"property": "C02", "id": "C02-" + fid, "title": title,
                         "signature": fid, "replay": "findings/C02-%s.json" % fid})
     fixed = ["fixed: property=C02 %s %s; replay corpus/C02/%s.json" % (commit, title, fid)
